@@ -5,7 +5,7 @@ use rand::Rng;
 use vcheck::gens::mpq::*;
 
 fn fs(name: &str, class: ContentClass, len: i16, method: u8, enc: Enc) -> FileSpec {
-    FileSpec { name: name.to_string(), class, len: LenSpec { halves: 0, delta: len }, seed: 4242 + len as u32, method, enc }
+    FileSpec { name: name.to_string(), class, len: LenSpec { halves: 0, delta: len }, seed: 4242 + len as u32, method, enc, locale: 0 }
 }
 
 fn spec(version: u8, shift: u16, listfile: bool, attrs: Attrs, files: Vec<FileSpec>) -> ArchiveSpec {
